@@ -25,14 +25,19 @@ FEATURES = ("closure", "vararg", "multi-assign", "loop", "goto", "metamethod", "
 OUT_RE = re.compile(r"^T\[(.*)\] (ok|err)\[(.*)\]$")
 
 
+HARNESS_ENV = {}
+ORACLE_FUEL = None
+
+
 def harness(h, args, timeout=3000):
-    rc, out, err = common.run_harness(h, args, timeout=timeout)
+    rc, out, err = common.run_harness(h, args, timeout=timeout, env=HARNESS_ENV or None)
     if rc != 0:
         raise common.BuildError("c01 harness %s failed rc=%d: %s" % (" ".join(args[:3]), rc, err[-2000:]))
     return out.split("\n")[:-1]
 
 
 def oracle(lines, fuel=None):
+    fuel = fuel or ORACLE_FUEL
     feed = [l for l in lines if l.startswith("P ") or l.startswith("R ")]
     exp = {}
     if not feed:
@@ -172,6 +177,11 @@ def run_mode(ctx, mode, n_quick, n_thorough):
         "coroutines, os/io, string.format, pairs order, tostring of floats/tables/functions, # on tables with holes are outside the reference semantics and excluded by the generator",
         "evaluation order of operands is not fixed by the manual: the generator allows at most one impure operand per operand list",
     ]
+    global ORACLE_FUEL
+    if ctx.tier == "thorough":
+        # long histories of caught errors: ~5000 iterations in a quarter of the long-history programs
+        HARNESS_ENV["C01_LONG"] = "5000"
+        ORACLE_FUEL = 30000
     common.prove(ctx)
     ctx.log("theorems checked")
     common.build_oracle()
@@ -215,7 +225,7 @@ def run_mode(ctx, mode, n_quick, n_thorough):
         bad = compare(ctx, lines, exp, "generated")
         for l in lines:
             if l.startswith("H "):
-                _, k, v = l.split(" ")
+                k, v = l[2:].rsplit(" ", 1)
                 ctx.count(k, int(v))
         nprog += sum(1 for l in lines if l.startswith("P "))
         by = {}
